@@ -38,6 +38,36 @@ CLAIMS = {
         "networkx.freeze makes mutators raise; engine resolver/call graph (CHA with name-based fallback), freshness analysis",
         "DESIGN.md section 4 C15",
     ),
+    "C03": (
+        "Decides four necessary conditions of exact reports for all graphs and rules: the 'something else' searches never expand a module "
+        "outside the subject's subtree and the excluded objects (no unrelated import can be recorded); every pair reaching a violation bucket "
+        "passes the re-orientation into user subject/object order exactly once; every bucket is rendered by both message generators, every "
+        "pair yields a line, lines are de-duplicated by full text and sorted; missing-import lines list all objects grouped under one subject. "
+        "Does NOT decide equality of the rendered set with a reference violating set.",
+        "search-model guard implication + tag-flow (single application of the re-orientation) + exhaustiveness over RuleViolations fields",
+        "engine search model, flow analysis and guard formulas",
+        "DESIGN.md section 4 C03",
+    ),
+    "C11": (
+        "Relational by-construction argument: compact and expanded rules drive the same pipeline with the same arguments. The regex conversion "
+        "unconditionally dominates every query and everything downstream reads the converted requirement; a regex contributes exactly the name "
+        "filters of the modules re.match accepts (accumulators change only under that test; unmatched raises before any result); partial names "
+        "become the regex filter of their translation; the three queries run one independent search per key over the full key set and store it "
+        "under that key (batch = conjunction). Regexes matching a module and its sub modules are outside the property (documented caveat).",
+        "dominance + guard implication + loop-independence (no loop-carried / shared state) analysis",
+        "re.match semantics; C15 purity; engine CFG/guards",
+        "DESIGN.md section 4 C11",
+    ),
+    "C12": (
+        "Decides the algebraic laws on the decision tables extracted from the code: duality (same explicit query after exactly one "
+        "importer/importee exchange, direction-independent predicate), negation (same source, complementary present/absent predicates, nothing "
+        "filtered in between), decomposition (bucket-set equality), alias rewrite, and the monotonicity lemma (traversals never depend on "
+        "import edges outside the subject's subtree / excluded objects). Laws for batched related operands are covered only as far as the "
+        "tables imply.",
+        "decision-table extraction and set algebra over extracted tables + search-model guard implication",
+        "C01's table extraction; C15 purity",
+        "DESIGN.md section 4 C12",
+    ),
 }
 
 NOT_BUILT_REASON = "static check not built yet in this session (planned rules: DESIGN.md section 4); no claim is made"
